@@ -176,6 +176,10 @@ impl Src for ReplaySrc {
 }
 
 pub fn noop() {}
+/// Stub for `alloc::fmt::format`: error messages are not the subject.
+pub fn no_format(_args: std::fmt::Arguments<'_>) -> String {
+    String::new()
+}
 pub fn never() -> bool {
     false
 }
